@@ -298,7 +298,9 @@ func (w *JWorld) NextVersion(c *simrt.Chooser, doc *JDoc) string {
 	if doc.No == 1 && c.Pct("change-includes", 45) {
 		// membership flaps: one of a.journal / b.journal leaves or (re-)enters the
 		// tree, entering in front of or behind the other include line
-		which := []string{"a.journal", w.BName}[c.Choose("flap-which", 2)]
+		// (new.journal does not exist until its document is saved: an include
+		// line may name a file that is created later)
+		which := []string{"a.journal", w.BName, "new.journal"}[c.Weighted("flap-which", []int{3, 3, 2})]
 		var keep []string
 		had := false
 		for _, inc := range doc.Includes {
@@ -318,10 +320,13 @@ func (w *JWorld) NextVersion(c *simrt.Chooser, doc *JDoc) string {
 		doc.Includes = keep
 	}
 	if w.DeepTree && doc.No == 2 && c.Pct("change-includes-a", 30) {
-		if c.Bool("a-includes-b") {
-			doc.Includes = []string{w.BName}
-		} else {
+		switch c.Choose("a-includes", 3) {
+		case 0:
 			doc.Includes = nil
+		case 1:
+			doc.Includes = []string{w.BName}
+		case 2:
+			doc.Includes = []string{"new.journal"}
 		}
 	}
 	text, lines := w.GenJText(c, doc, doc.Marker, doc.Includes)
